@@ -192,6 +192,72 @@ class State:
         return text if not v else f"{text}@{v}"
 
 
+import builtins as _b
+
+_BUILTIN_NAMES = set(dir(_b))
+_RAISERS = {}
+
+
+def _pkg_raisers(repo):
+    """exception class defined in the package -> (names of functions/classes that may raise it transitively,
+    names of all functions/classes of the package)"""
+    key = repo.root
+    if key in _RAISERS:
+        return _RAISERS[key]
+    classes = {}
+    for m in repo.modules.values():
+        for n in ast.walk(m.tree):
+            if isinstance(n, ast.ClassDef):
+                classes[n.name] = [u(b).split(".")[-1] for b in n.bases]
+    def is_exc(c, seen=()):
+        if c in seen:
+            return False
+        return any(b.endswith("Error") or b.endswith("Exception") or (b in classes and is_exc(b, seen + (c,))) for b in classes.get(c, []))
+    excs = [c for c in classes if is_exc(c)]
+    def subclasses(e):
+        out = {e}
+        changed = True
+        while changed:
+            changed = False
+            for c, bs in classes.items():
+                if c not in out and any(b in out for b in bs):
+                    out.add(c)
+                    changed = True
+        return out
+    direct, calls = {}, {}
+    known = set(classes)
+    for f in repo.all_functions():
+        owner = [f.name]
+        if f.cls is not None and f.name in ("__init__", "__post_init__"):
+            owner.append(f.cls.name)
+        known.add(f.name)
+        for n in ast.walk(f.node):
+            if isinstance(n, ast.Raise) and n.exc is not None:
+                t = u(n.exc.func if isinstance(n.exc, ast.Call) else n.exc).split(".")[-1]
+                for o in owner:
+                    direct.setdefault(t, set()).add(o)
+            elif isinstance(n, ast.Call):
+                nm = n.func.attr if isinstance(n.func, ast.Attribute) else n.func.id if isinstance(n.func, ast.Name) else None
+                if nm:
+                    for o in owner:
+                        calls.setdefault(o, set()).add(nm)
+    out = {}
+    for e in excs:
+        r = set()
+        for sc in subclasses(e):
+            r |= direct.get(sc, set())
+        changed = True
+        while changed:
+            changed = False
+            for fn, cs in calls.items():
+                if fn not in r and cs & r:
+                    r.add(fn)
+                    changed = True
+        out[e] = (r, known)
+    _RAISERS[key] = out
+    return out
+
+
 _LEN_BOUND = re.compile(r"(\d+) Lt (len\(.*\))$")
 
 
@@ -497,6 +563,8 @@ class Evaluator:
                 if self._may_raise_stmt(b):
                     for h in s.handlers:
                         ht = u(h.type) if h.type is not None else "BaseException"
+                        if not self._may_raise_exc(b, ht):
+                            continue
                         subs = [n for n in ast.walk(b) if isinstance(n, ast.Subscript) and isinstance(n.ctx, ast.Load) and not isinstance(n.slice, ast.Slice)]
                         if ht == "KeyError" and len(subs) == 1 and not any(isinstance(n, ast.Call) for n in ast.walk(b)):
                             # `try: ... d[k] ... except KeyError` is the membership idiom: same atom as `k in d`
@@ -539,6 +607,29 @@ class Evaluator:
                 return h
             # ValueError subclasses declared in the package are matched by name only
         return None
+
+    def _may_raise_exc(self, b, ht):
+        """can statement `b` raise the package-defined exception `ht`?  Only code of the package raises such
+        an exception: the statement must call (by name) something that transitively contains `raise ht`
+        (or a subclass), or call a value of unknown origin.  Other exception types: anything may raise them."""
+        fi = self.fi
+        if fi is None:
+            return True
+        table = _pkg_raisers(fi.module.repo)
+        if ht not in table:
+            return True
+        raisers, known = table[ht]
+        for n in ast.walk(b):
+            if isinstance(n, ast.Call):
+                name = n.func.attr if isinstance(n.func, ast.Attribute) else n.func.id if isinstance(n.func, ast.Name) else None
+                if name is None or name in raisers:
+                    return True
+                if name not in known and name not in _BUILTIN_NAMES:
+                    # an unknown callable (local variable, parameter, stdlib function): stdlib never raises a package exception,
+                    # a callable held in a variable may be anything
+                    if isinstance(n.func, ast.Name):
+                        return True
+        return False
 
     def _may_raise_stmt(self, b):
         if isinstance(b, (ast.If, ast.For, ast.While, ast.Try, ast.With, ast.Raise)):
@@ -756,6 +847,18 @@ class Evaluator:
         r = self.hooks.on_call(c, ftext, args, kwargs, st)
         if r is not NOTHING:
             return r
+        if ftext == "getattr" and len(args) == 2 and isinstance(args[1], str) and args[1].isidentifier() and not kwargs:
+            # getattr(x, "name") is x.name
+            return self.ev(ast.copy_location(ast.Attribute(value=c.args[0], attr=args[1], ctx=ast.Load()), c), st)
+        if isinstance(c.func, ast.Attribute) and isinstance(c.func.value, ast.Name) and isinstance(st.env.get(c.func.value.id), list) and not kwargs:
+            # a local list that is known element by element keeps being known when it grows
+            lst = st.env[c.func.value.id]
+            if c.func.attr == "append" and len(args) == 1:
+                lst.append(args[0])
+            elif c.func.attr == "extend" and len(args) == 1 and isinstance(args[0], (list, tuple)):
+                lst.extend(args[0])
+            elif c.func.attr in ("extend", "insert", "pop", "remove", "clear", "sort", "reverse", "__setitem__", "__delitem__"):
+                st.env[c.func.value.id] = Sym(st.vkey(c.func.value.id))  # no longer known element by element
         if ftext == "list" and len(c.args) == 1 and not kwargs:
             a0 = c.args[0]
             if isinstance(a0, ast.GeneratorExp):
